@@ -537,6 +537,62 @@ def g_budget_splits(F, rng, tier):
     return out
 
 
+def short_eighths(F, rng, per):
+    """(w, q, r) with w < 10^19 such that w x 10^q is EXACTLY (m + r/8) ulps for a p-bit significand m, r = 1..7: the
+    value has at most p+3 significant bits, so Eisel-Lemire's product is exact (low word zero) and everything below the
+    rounding bit is visible in a few bits.  r = 4 is the tie; r = 2, 6 (quarter / three quarters) and the odd r are
+    the patterns a sloppy "only zeros were dropped" test confuses with it.  For every q of the tie window (+-2):
+      q < 0 : w = N 5^-q 2^j;   q >= 0: N = 5^q k, w = k 2^j     with N in [2^(p+2), 2^(p+3)), N = r (mod 8)"""
+    out = []
+    lo, hi = 1 << (F.p + 2), 1 << (F.p + 3)
+    for q in range(F.tie_lo - 2, F.tie_hi + 3):
+        for r16 in range(1, 16):                      # the parity of m (bit 3) together with r (bits 0..2)
+            r = r16 & 7
+            if r == 0:
+                continue
+            for _ in range(per):
+                if q < 0:
+                    f5 = 5 ** (-q)
+                    nmax = min(hi, 10 ** 19 // f5)
+                    if nmax <= lo:
+                        continue
+                    n = (rng.randrange(lo, nmax) & ~15) | r16
+                    if not lo <= n < nmax:
+                        continue
+                    base = n * f5
+                else:
+                    f5 = 5 ** q
+                    kmin, kmax = -(-lo // f5), (hi - 1) // f5
+                    if kmax < kmin:
+                        continue
+                    want = (r16 * pow(f5, -1, 16)) % 16
+                    ks = [k for k in range(kmin, min(kmax, kmin + 64) + 1) if k % 16 == want] if kmax - kmin < 4096 else \
+                        [((rng.randrange(kmin, kmax) & ~15) | want)]
+                    ks = [k for k in ks if kmin <= k <= kmax]
+                    if not ks:
+                        continue
+                    base = rng.choice(ks)
+                    assert (base * f5) % 16 == r16
+                for j in sorted({0, 1, 2, rng.randrange(0, 10)}):
+                    w = base << j
+                    if w < 10 ** 19:
+                        out.append((w, q, r))
+    return out
+
+
+def g_short_eighths(F, rng, tier):
+    """G20: the values above as parse inputs, each in up to three spellings (w, q), (w0, q-1), (w00, q-2)"""
+    out = []
+    for (w, q, r) in short_eighths(F, rng, 1 if tier == "quick" else 6):
+        for z in (0, 1, 2):
+            ww = w * 10 ** z
+            if ww < 10 ** 19:
+                ds = str(ww)
+                i, f, e = rng.choice(forms_keep(ds, q - z, rng))
+                out.append(mk(F.name, i, f, e, "G20:eighth%d" % r))
+    return out
+
+
 def g_floats_exact(F, rng, n):
     """exactly representable values (the float itself, not the midpoint)"""
     out = []
@@ -871,6 +927,10 @@ def g_moderate(F, rng, tier):
         w = rng.getrandbits(rng.choice([64, 64, 63, 60, 54, 30]))
         qq = rng.randrange(F.p10_lo - 3, F.p10_hi + 4)
         add(w, qq, rng.random() < 0.5, "G3:random")
+    for (w, qq, r) in short_eighths(F, rng, 1 if q else 4):
+        for z in (0, 1, 2):
+            if w * 10 ** z < 10 ** 19:
+                add(w * 10 ** z, qq - z, False, "G3:eighth")
     for (w, qq) in lo_ones(F.p10_lo - 2, F.p10_hi + 2):
         add(w, qq, False, "G3:lo-ones")
         add(w, qq, True, "G3:lo-ones-trunc")
@@ -964,6 +1024,25 @@ def g_chains(F, rng, tier):
     for ds in ("1", "9", "17", "123456789", "9007199254740993", "18446744073709551615", "99999999999999999999", "5"):
         for lo in (-F.fast_exp - 3, F.fast_exp - 2, F.disg_exp - 2, F.p10_lo - 2, F.p10_hi - len(ds) - 2, -5):
             out.append(chain_of(F, [(ds, e) for e in range(lo, lo + 6)], rng, "C09:succ-exp"))
+    # across the top of a binade (significand all ones -> next power of two), exponent field 0 (largest subnormal ->
+    # smallest normal), 1, the top field (-> infinity) and sampled others: ascending fractions of the last ulp, each
+    # written with 17 and with 19 digits (moderate stage) - the carry / promotion must not drop below the neighbours
+    full = (1 << F.mbits) - 1
+    for ef in [0, 1, 2, F.bias, F.emaxfield - 2, F.emaxfield - 1] + rng.sample(range(3, F.emaxfield - 2), 4 if q else 40):
+        m, e = F.decode((ef << F.mbits) | full)
+        for nd in (17, 19):
+            vals = []
+            for (a, b) in ((0, 1), (1, 1000), (1, 4), (499, 1000), (1, 2), (501, 1000), (3, 4), (999, 1000), (1, 1), (5, 4), (2, 1)):
+                num, den = (m * b + a), b
+                if e >= 0:
+                    num <<= e
+                else:
+                    den <<= -e
+                w, qq = nd_digits(num, den, nd)
+                vals.append((str(w), qq))
+            # truncation to nd digits is monotonic (equal values allowed)
+            out.append({"kind": "chain", "fmt": F.name, "tag": "C09:carry",
+                        "members": [{"int": w, "frac": "", "exp": qq} for (w, qq) in vals]})
     # every decade, first to last (and beyond): 1eq < 2eq < ... < 9eq < 1e(q+1); short forms only (what a caller writes)
     for qq in range(F.p10_lo - 3, F.p10_hi + 3):
         mem = [{"int": str(d), "frac": "", "exp": qq} for d in range(1, 10)] + [{"int": "1", "frac": "", "exp": qq + 1}, {"int": "15", "frac": "", "exp": qq}]
@@ -1070,6 +1149,16 @@ def g_groups(F, rng, tier):
     for ds in ("1", "10", "10000", "12345678901234567890", "9999999999999999999", "18446744073709551616"):
         for e in (0, F.fast_exp, F.fast_exp + 1, -F.fast_exp - 1, F.disg_exp, F.p10_hi - len(ds), F.p10_lo + 5, 4, 8):
             group(ds.rstrip("0") or "1", e + len(ds) - len(ds.rstrip("0")), "C10:seam")
+    # short exact values at r/8 of an ulp: the same value with 0, 1, 2 trailing zeros in the significand and the point moved
+    for (w, qq, r) in short_eighths(F, rng, 1 if q else 4):
+        mem = []
+        for z in (0, 1, 2):
+            ww = w * 10 ** z
+            if ww < 10 ** 19:
+                mem += forms_keep(str(ww), qq - z, rng)[:3]
+        if len(mem) > 1:
+            out.append({"kind": "group", "fmt": F.name, "tag": "C10:eighth",
+                        "members": [{"int": i, "frac": f, "exp": e} for (i, f, e) in mem]})
     # the decimal point at every position next to the digit budget of the big-integer path: one group per digit string
     bysame = {}
     for r in g_budget_splits(F, rng, tier):
